@@ -125,6 +125,10 @@ def sweep_entry(run, entry, cfgs, rnd, tier, deadline, hostile=None):
             run.count('configs_exhaustive')
         nbad = 0
         first = True
+        # configuration classes of the catalogue (control wire wider than one bit, constant parameter at a boundary): what was judged
+        klass = catalog.classify(entry.name, cfg) if not hostile else []
+        ctl = catalog.CONTROL_PINS[entry.name](cfg) if 'wide_control' in klass else []
+        kc = dict(evals=0, ctl_ge2=0, ctl_odd_ge3=0, reduced=0, ctl_outside_domain=0)
         for vals in cases:
             for w, v in zip(ins, vals):
                 w.put(v)
@@ -132,6 +136,8 @@ def sweep_entry(run, entry, cfgs, rnd, tier, deadline, hostile=None):
                 vals = tuple(vals[k] for k in expand)
             if entry.domain is not None and not entry.domain(cfg, vals):
                 run.count('outside_documented_domain')
+                if ctl and any(vals[k] >= 2 for k in ctl):
+                    kc['ctl_outside_domain'] += 1
                 continue
             try:
                 sim.propagateAll()
@@ -163,13 +169,49 @@ def sweep_entry(run, entry, cfgs, rnd, tier, deadline, hostile=None):
                     break
             if reduced or any(vals) or not vals:
                 run.nt(hash((entry.name, cfg, tuple(vals), hostile)))
+            if klass:
+                kc['evals'] += 1
+                kc['reduced'] += reduced
+                if ctl:
+                    kc['ctl_ge2'] += any(vals[k] >= 2 for k in ctl)
+                    kc['ctl_odd_ge3'] += any(vals[k] >= 3 and vals[k] & 1 for k in ctl)
             if first:
                 first = False
             if run.evaluations % 9973 == 0:
                 run.sample(dict(block=entry.name, cfg=cfg, inputs=vals, expected=[None if e is None else mask(e, w) for e, w in zip(exp, ow)], observed=got))
+        for c in klass:
+            by = run.extra.setdefault('class_' + c, {})
+            by['configs'] = by.get('configs', 0) + 1
+            by['judged_evaluations'] = by.get('judged_evaluations', 0) + kc['evals']
+            by['configs:' + entry.name] = by.get('configs:' + entry.name, 0) + 1
+            if c == 'wide_control':
+                by['judged_with_control_value_ge_2'] = by.get('judged_with_control_value_ge_2', 0) + kc['ctl_ge2']
+                by['judged_with_odd_control_value_ge_3'] = by.get('judged_with_odd_control_value_ge_3', 0) + kc['ctl_odd_ge3']
+                by['not_judged_control_value_ge_2_undocumented'] = by.get('not_judged_control_value_ge_2_undocumented', 0) + kc['ctl_outside_domain']
+            else:
+                by['judged_with_result_reduced_mod_2**width'] = by.get('judged_with_result_reduced_mod_2**width', 0) + kc['reduced']
+                if len(outs) == 1 and ins and ow[0] < max(widths):
+                    by['configs_result_narrower_than_operand'] = by.get('configs_result_narrower_than_operand', 0) + 1
         if run.too_many:
             break
     return nconf
+
+
+# the deciding observation of every catalogue configuration class: a run in which it is zero decided nothing about the class
+DECIDING = {'wide_control': 'judged_with_odd_control_value_ge_3', 'param_boundary': 'judged_with_result_reduced_mod_2**width'}
+
+
+def post_merge(run, prop, tier):
+    for c, d in catalog.CLASSES.items():
+        names = [n for n in d if catalog.by_name(n).prop == prop and any(x in catalog.by_name(n).configs(tier) for x in d[n])]
+        if not names:
+            continue
+        by = run.extra.get('class_' + c, {})
+        missing = [n for n in names if not by.get('configs:' + n)]
+        if missing:
+            run.inconclusive.append('configuration class %s: blocks never swept: %s' % (c, missing))
+        if not by.get(DECIDING[c]):
+            run.inconclusive.append('configuration class %s: %s is zero' % (c, DECIDING[c]))
 
 
 def run_prop(run, prop, tier, seed, shard, seconds):
@@ -202,3 +244,5 @@ def run_prop(run, prop, tier, seed, shard, seconds):
             run.inconclusive.append('blocks never evaluated: %s' % zero)
     if run.counters.get('configs_skipped_watchdog'):
         run.inconclusive.append('watchdog: %d configurations skipped' % run.counters['configs_skipped_watchdog'])
+    if shard is None:
+        post_merge(run, prop, tier)
